@@ -11,18 +11,28 @@ From Verif Require Import Model.Includer Proofs.IncluderProofs.
 Import ListNotations.
 Open Scope N_scope.
 
-(* the reported height never decreases, over any continuation — including crashes in the middle of an
-   includer run and restarts *)
-Theorem C07_monotone_full : forall h h' : list item, rep (run h) <= rep (run (h ++ h')).
+(* "Reported" = what GetDAIncludedHeight() returns at ANY instant: after a history ([rep (run h)]), or
+   [k] effects into an includer run at which the process dies or an effect fails ([seen_at_death h k] — the
+   effects of one height are Put rhb/h, Put rhb/d, SetFinal, Put d, publish-in-memory, in this order).
+   The reported height never decreases: over any continuation; from the start of a run to any instant inside
+   it; and from the instant of death (ICrash k) / of the failing effect (IFault k) to anything reported after
+   the restart, whatever follows. *)
+Theorem C07_monotone_full : forall (h h' : list item) (k : nat),
+  rep (run h) <= rep (run (h ++ h')) /\
+  rep (run h) <= seen_at_death h k /\
+  seen_at_death h k <= rep (run (h ++ ICrash k :: h')) /\
+  seen_at_death h k <= rep (run (h ++ IFault k :: h')).
 Proof. exact monotone. Qed.
 Print Assumptions C07_monotone_full.
 
-(* a clean restart and a crash outside an includer run report exactly the height reported before;
-   a crash after k effects of an includer run reports at least that *)
+(* a clean restart and a crash outside an includer run report exactly the height reported before; a restart
+   after a death / a failing effect k effects into a run reports the last height observable before it, or
+   that height + 1 (when the Put of "d" happened and the publication did not) *)
 Theorem C07_durable_full : forall (h : list item) (k : nat),
   rep (run (h ++ [IRestart])) = rep (run h) /\
   rep (run (h ++ [ICrash 0])) = rep (run h) /\
-  rep (run h) <= rep (run (h ++ [ICrash k])).
+  seen_at_death h k <= rep (run (h ++ [ICrash k])) <= seen_at_death h k + 1 /\
+  seen_at_death h k <= rep (run (h ++ [IFault k])) <= seen_at_death h k + 1.
 Proof. exact durable. Qed.
 Print Assumptions C07_durable_full.
 
@@ -30,15 +40,27 @@ Print Assumptions C07_durable_full.
    height are exactly rep, rep-1, ..., 1 (newest first: it advances one height at a time, from 0); the
    executor's SetFinal log (newest first) has top m = rep or rep+1, every older entry equal to or one below
    its successor, oldest 1 (in order, no height skipped, a repeat only of an entry whose store did not
-   follow); every store of height n is preceded by SetFinal(n); the persisted height equals the reported one *)
+   follow); every store of height n is preceded by SetFinal(n), every publication of n by the store of n; the
+   persisted height equals the reported one *)
 Theorem C07_safety_full : forall h : list item, let s := run h in
   rep s <= sheight s /\
   desc (dputs (tr s)) (rep s) /\
   (exists m, (m = rep s \/ m = rep s + 1) /\ finsok (fins (tr s)) m) /\
-  asked_before (tr s) /\
+  asked_before (tr s) /\ persisted_before (tr s) /\
   kd (meta s) = rep s.
 Proof. exact safety. Qed.
 Print Assumptions C07_safety_full.
+
+(* the same at every instant inside an includer run (death / failing effect after k effects): the reported
+   height is the persisted one or one below it, never above *)
+Theorem C07_safety_at_death_full : forall (h : list item) (k : nat), let s := dying (run h) k in
+  (kd (meta s) = di s \/ kd (meta s) = di s + 1) /\
+  kd (meta s) <= sheight s /\
+  desc (dputs (tr s)) (kd (meta s)) /\
+  (exists m, (m = kd (meta s) \/ m = kd (meta s) + 1) /\ finsok (fins (tr s)) m) /\
+  asked_before (tr s) /\ persisted_before (tr s).
+Proof. exact safety_at_death. Qed.
+Print Assumptions C07_safety_at_death_full.
 
 (* every height n up to the reported one is a stored block whose header was accepted by / observed on the
    DA layer at the DA height recorded under rhb/<n>/h, and whose data — unless the block is empty, in which
@@ -53,10 +75,21 @@ Theorem C07_sound_full : forall (h : list item) (n : N), let s := run h in
 Proof. exact sound. Qed.
 Print Assumptions C07_sound_full.
 
+Theorem C07_sound_at_death_full : forall (h : list item) (k : nat) (n : N), let s := dying (run h) k in
+  1 <= n <= di s ->
+  exists b hda dda,
+    block_at (chain s) n = Some b /\
+    meta_get (meta s) (KH n) = Some hda /\ meta_get (meta s) (KT n) = Some dda /\
+    In (IMarkH (bh b) hda) h /\
+    (if bempty b then dda = hda else In (IMarkD (bd b) dda) h).
+Proof. exact sound_at_death. Qed.
+Print Assumptions C07_sound_at_death_full.
+
 (* liveness under the guard [blocks_marked_since_crash]: if the header and (unless empty) the data of every
    block up to n were accepted / observed after the last crash (clean restarts in between are allowed),
    one run of the includer reports at least n.
-   What is missing relative to the property: marks produced before a crash. *)
+   What is missing relative to the property: marks produced before a crash; initial height above 1 (the guard
+   is false when a height up to n is a hole). *)
 Theorem C07_eventually_partial : forall (h : list item) (n : N),
   n <= sheight (run h) ->
   blocks_marked_since_crash h n = true ->
@@ -80,6 +113,16 @@ Theorem C07_eventually_unguarded_refuted :
        exists k, n <= rep (run (h ++ repeat IInclude k))).
 Proof. exact eventually_full_is_false. Qed.
 Print Assumptions C07_eventually_unguarded_refuted.
+
+(* second refutation: genesis.InitialHeight > 1.  Heights below it are holes of the block store; the includer
+   starts at height 1, GetBlockData(1) fails, the loop breaks: whatever happens afterwards — marks included —
+   the reported height stays 0, although every existing block up to n is on the DA layer. *)
+Theorem C07_eventually_initial_height_refuted :
+  exists (h : list item) (n : N),
+    n <= sheight (run h) /\ blocks_marked_ever h n = true /\
+    forall ext, rep (run (h ++ ext)) = 0 /\ rep (run (h ++ ext)) < n.
+Proof. exact initial_height_refuted. Qed.
+Print Assumptions C07_eventually_initial_height_refuted.
 
 (* ---- non-vacuity ---------------------------------------------------------------------------------- *)
 Definition b1 := {| bh := 1; bd := 0 |}.       (* empty block *)
@@ -106,6 +149,14 @@ Example ex_live_guard :
 Proof. vm_compute. repeat split; try reflexivity; discriminate. Qed.
 
 (* ... and is not met by the history of the refutation, whose blobs are nevertheless on the DA layer *)
+(* a death between the Put of "d" := 1 and its publication: 0 was the last height anyone saw, 1 is reported
+   after the restart; one effect earlier the restart reports 0 *)
+Example ex_death :
+  let h := [IAppend b1; IMarkH 1 10] in
+  (seen_at_death h 4, rep (run (h ++ [ICrash 4])), seen_at_death h 3, rep (run (h ++ [ICrash 3])),
+   seen_at_death h 5, rep (run (h ++ [IFault 5]))) = (0, 1, 0, 0, 1, 1).
+Proof. vm_compute. reflexivity. Qed.
+
 Example ex_f9 :
   blocks_marked_since_crash f9_history 1 = false /\ blocks_marked_ever f9_history 1 = true /\
   rep (run (f9_history ++ [IInclude; IRestart; IInclude])) = 0.
